@@ -714,6 +714,12 @@ Proof.
     destruct (o_phase o); try exact S0. destruct (Nat.eqb a a0); [|exact S0].
     pose proof (boot_next_S None [] (set_boot C a KDead) p rest S0 I) as Y. destruct (boot_next (set_boot C a KDead) p rest).
     cbn [fst] in *. apply Y. congruence.
+  - (* EResend *)
+    destruct (c_clients C) as [cl|] eqn:Ec; [|exact Sv].
+    destruct (nth_error (c_direct C) d) as [[i h0]|]; [|exact Sv].
+    destruct (make_req C i _ expect mint _) as [[C3 r] o3] eqn:M.
+    destruct (make_req_S _ _ _ _ _ _ _ _ _ _ _ _ T Sv M) as (S3 & _).
+    destruct r; cbn [fst]; [exact S3 | |]; (eapply SInv_frame; [| | |exact S3]; reflexivity).
 Qed.
 
 Theorem run_S : forall evs C, TInvC [] C -> SInv None [] C -> SInv None [] (fst (run C evs)).
